@@ -26,8 +26,11 @@ ASSUMPTIONS = [
 ]
 
 VIEWS = ("astdump", "has_import", "has_call", "has_nss_call", "imports", "severity", "dumps")
-SIMPLE = ("MARK", "TUPLE", "REDUCE", "POP", "STOP", "EMPTY_LIST", "EMPTY_DICT", "APPEND",
-          "MEMOIZE", "NONE", "DUP", "EMPTY_TUPLE", "TUPLE1", "BUILD", "POP_MARK")  # fmt: skip
+# every opcode class without an argument (the machine draws from all of them)
+SIMPLE = ("MARK", "TUPLE", "REDUCE", "POP", "STOP", "EMPTY_LIST", "EMPTY_DICT", "APPEND", "MEMOIZE",
+          "NONE", "DUP", "EMPTY_TUPLE", "TUPLE1", "BUILD", "POP_MARK", "STACK_GLOBAL", "NEWOBJ",
+          "NEWOBJ_EX", "OBJ", "EMPTY_SET", "ADDITEMS", "SETITEM", "SETITEMS", "APPENDS", "TUPLE2",
+          "TUPLE3", "LIST", "DICT", "FROZENSET", "BINPERSID", "NEWTRUE", "NEWFALSE")  # fmt: skip
 
 
 def make_op(spec):
@@ -232,7 +235,7 @@ def _machine(res, holder):
         st.tuples(st.just("simple"), st.sampled_from(SIMPLE)),
         st.tuples(st.just("global"), st.sampled_from(["os", "builtins", "collections", "foo"]),
                   st.sampled_from(["system", "eval", "OrderedDict", "Bar"])),
-        st.tuples(st.just("const"), st.one_of(st.integers(-5, 70000), st.sampled_from(["a", "id", ""]))),
+        st.tuples(st.just("const"), st.one_of(st.integers(-5, 70000), st.sampled_from(["a", "id", "", "os", "system", "builtins", "eval"]))),
         st.tuples(st.just("put"), st.integers(0, 3)),
         st.tuples(st.just("get"), st.integers(0, 3)),
         st.tuples(st.just("proto"), st.integers(0, 5)),
